@@ -396,3 +396,172 @@ func DeleteChainWorld(rng *rand.Rand, label string, depth int, chainOn string, w
 	w.Features["delete-of-"+chainOn] = true
 	return w
 }
+
+// MultiDeleteSpec describes a world in which ONE target carries several delete claims.
+type MultiDeleteSpec struct {
+	// On is "permanode" (the target is the permanode; it always has a title claim so that the
+	// row-based lookups have something to show) or "claim" (the target is the title claim).
+	On string
+	// Deleters is the number of delete claims of the target (2 or 3), each with its own date.
+	Deleters int
+	// Undo lists the deleters that are themselves deleted, by date rank (0 = the OLDEST delete
+	// claim of the target, Deleters-1 = the NEWEST).  The target stays deleted as long as one
+	// deleter is left alone.
+	Undo []int
+	// TwoSigners: the deleters alternate between two signers ("a second client deletes it again").
+	TwoSigners bool
+	// Tie (needs TwoSigners): the two newest deleters carry exactly the same claim date.
+	Tie bool
+	// Edges adds a second permanode with a camliPath:foo and a camliMember claim pointing at the
+	// first one, so that path and edge lookups depend on the target's deletion status.
+	Edges bool
+}
+
+// MultiDeleteWorld builds a small directed world: key(s), a permanode with a title claim,
+// spec.Deleters delete claims of one target with different dates, and one delete claim for each
+// deleter listed in spec.Undo.  Unlike DeleteChainWorld (a linear chain) the target's status
+// depends on ALL of its deleters: it is alive only when every one of them is undone.
+func MultiDeleteWorld(rng *rand.Rand, label string, spec MultiDeleteSpec) *World {
+	w := newWorld()
+	s1 := NewSigner(1)
+	w.Signers = []*Signer{s1}
+	w.add(s1.Pub, "key")
+	if spec.TwoSigners {
+		s2 := NewSigner(2)
+		w.Signers = append(w.Signers, s2)
+		w.add(s2.Pub, "key")
+		w.Features["two-signers"] = true
+	}
+	pn := s1.Permanode(label + "-multidel-pn")
+	w.add(pn, "permanode", s1.PubRef)
+	w.Permanodes = append(w.Permanodes, pn.Ref)
+	w.PNSigner[pn.Ref] = 1
+	dates := newC06Dates(w, rng)
+	title := w.addClaim(1, Set, pn.Ref, "title", "multi-delete title", dates.fresh())
+	if spec.Edges {
+		p2 := s1.Permanode(label + "-multidel-parent")
+		w.add(p2, "permanode", s1.PubRef)
+		w.Permanodes = append(w.Permanodes, p2.Ref)
+		w.PNSigner[p2.Ref] = 1
+		w.addClaim(1, Set, p2.Ref, "camliPath:foo", pn.Ref.String(), dates.fresh())
+		w.addClaim(1, Add, p2.Ref, "camliMember", pn.Ref.String(), dates.fresh())
+		w.Features["multi-delete-with-edges"] = true
+	}
+	target := pn.Ref
+	if spec.On == "claim" {
+		target = title
+	}
+	addMultiDelete(w, rng, dates, target, spec)
+	w.Features["multi-delete-on-"+spec.On] = true
+	w.Features["delete-of-"+spec.On] = true
+	return w
+}
+
+// addMultiDelete adds spec.Deleters delete claims of target plus the undo claims; the blobs are
+// created in an order unrelated to their dates.
+func addMultiDelete(w *World, rng *rand.Rand, dates *c06Dates, target blob.Ref, spec MultiDeleteSpec) {
+	n := spec.Deleters
+	if n < 2 {
+		n = 2
+	}
+	ds := dates.ordered(n)
+	if spec.Tie && len(w.Signers) == 2 {
+		ds[n-1] = ds[n-2]
+		w.Features["multi-delete-tied-dates"] = true
+	}
+	deleters := make([]blob.Ref, n)
+	for _, rank := range rng.Perm(n) {
+		si := 1
+		if len(w.Signers) == 2 && (spec.TwoSigners || spec.Tie) && rank%2 == 1 {
+			si = 2
+		}
+		if spec.Tie && len(w.Signers) == 2 {
+			// the tied pair must come from different signers (else it is one blob)
+			si = 1 + rank%2
+		}
+		deleters[rank] = w.addDelete(si, target, ds[rank])
+	}
+	undone := map[int]bool{}
+	for _, rank := range spec.Undo {
+		if rank < 0 || rank >= n || undone[rank] {
+			continue
+		}
+		undone[rank] = true
+		w.addDelete(1, deleters[rank], dates.fresh())
+		w.Features["delete-of-delete"] = true
+	}
+	w.Features[fmt.Sprintf("multi-delete-%d", n)] = true
+	switch {
+	case len(undone) == 0:
+		w.Features["multi-delete-undo-none"] = true
+	case len(undone) == n:
+		w.Features["multi-delete-undo-all"] = true
+	case len(undone) == 1 && undone[n-1]:
+		w.Features["multi-delete-undo-newest-only"] = true
+	case len(undone) == 1 && undone[0]:
+		w.Features["multi-delete-undo-oldest-only"] = true
+	case len(undone) == 1:
+		w.Features["multi-delete-undo-middle-only"] = true
+	case !undone[0]:
+		w.Features["multi-delete-undo-all-but-oldest"] = true
+	case !undone[n-1]:
+		w.Features["multi-delete-undo-all-but-newest"] = true
+	default:
+		w.Features["multi-delete-undo-all-but-middle"] = true
+	}
+}
+
+// ExtendMultiDelete adds, to a generated world, several delete claims of one existing target
+// (a permanode that other permanodes point at when there is one, else any permanode, or an
+// attribute claim) with a seeded subset of them undone.
+func ExtendMultiDelete(w *World, rng *rand.Rand) {
+	if len(w.Permanodes) == 0 {
+		return
+	}
+	dates := newC06Dates(w, rng)
+	var pointedAt, claims []blob.Ref
+	isPN := map[string]bool{}
+	for _, pn := range w.Permanodes {
+		isPN[pn.String()] = true
+	}
+	for _, c := range w.Claims {
+		if c.Kind == "delete" || c.Kind == "share" {
+			continue
+		}
+		claims = append(claims, c.Ref)
+		if (c.Attr == "camliMember" || strings.HasPrefix(c.Attr, "camliPath:") || c.Attr == "camliContent") && isPN[c.Value] {
+			if r, ok := blob.Parse(c.Value); ok {
+				pointedAt = append(pointedAt, r)
+			}
+		}
+	}
+	target := w.Permanodes[rng.Intn(len(w.Permanodes))]
+	on := "permanode"
+	switch {
+	case len(pointedAt) > 0 && rng.Intn(3) != 0:
+		target = pointedAt[rng.Intn(len(pointedAt))]
+		w.Features["multi-delete-with-edges"] = true
+	case len(claims) > 0 && rng.Intn(3) == 0:
+		target = claims[rng.Intn(len(claims))]
+		on = "claim"
+	}
+	n := 2 + rng.Intn(2)
+	var undo []int
+	switch rng.Intn(4) {
+	case 0:
+		undo = []int{n - 1}
+	case 1:
+		undo = []int{0}
+	case 2:
+		undo = []int{n - 1, rng.Intn(n - 1)}
+	default:
+		for k := 0; k < n; k++ {
+			if rng.Intn(2) == 0 {
+				undo = append(undo, k)
+			}
+		}
+	}
+	addMultiDelete(w, rng, dates, target, MultiDeleteSpec{On: on, Deleters: n, Undo: undo, TwoSigners: len(w.Signers) == 2})
+	w.Features["multi-delete-on-"+on] = true
+	w.Features["delete-of-"+on] = true
+}
